@@ -95,6 +95,10 @@ type c08File struct {
 	chunkHi [][]int64   // [rg][col] first byte behind the chunk
 	bad     *c08Bad     // one page whose body was corrupted after the oracle was built (nil: intact file)
 	buffer  func() (parquet.RowGroup, error)
+	// merged-* kinds: MergeRowGroups over two sorted files whose key ranges overlap in part; the
+	// file's rows are those of the two inputs back to back (the order of the merged row group's
+	// column chunks: range views of the lone stretches around the chunks of the overlapping one)
+	merged func(opts ...parquet.FileOption) (parquet.RowGroup, error)
 }
 
 // c08Bad names the page whose checksum no longer matches and the global rows it holds.
@@ -249,6 +253,10 @@ var c08Kinds = []string{
 	"buffer-pages", // GenericBuffer[T].ColumnChunks()[c].Pages()
 }
 
+// kinds that exist only on the file built by c08MergedFile: the column chunks of
+// MergeRowGroups(sorted A, sorted B) with partly overlapping key ranges (the public route to range views)
+var c08MergedKinds = []string{"merged-pages", "merged-values"}
+
 type c08View struct {
 	mode      string // rows | typed | page | values
 	col       int    // page / values modes: the leaf column (oracle index)
@@ -324,8 +332,9 @@ func (f *c08File) open(sp c08Spec) (v *c08View, err error) {
 	v = &c08View{col: sp.Col, loadIndex: func() {}, close: func() {}}
 	var pf *parquet.File
 	needFile := !strings.HasPrefix(sp.Kind, "buffer-")
+	var opts []parquet.FileOption
 	if needFile {
-		opts := []parquet.FileOption{parquet.SkipPageIndex(sp.SkipIndex)}
+		opts = []parquet.FileOption{parquet.SkipPageIndex(sp.SkipIndex)}
 		if sp.Async {
 			opts = append(opts, parquet.FileReadMode(parquet.ReadModeAsync))
 		}
@@ -519,6 +528,33 @@ func (f *c08File) open(sp c08Spec) (v *c08View, err error) {
 	case "range-pages":
 		v.base, v.total = f.rgStart[sp.RG]+sp.Off, sp.Len
 		usePages(parquet.VerifNewRowRange(pf.RowGroups()[sp.RG], int64(sp.Off), int64(sp.Len)).ColumnChunks()[sp.Col].Pages())
+	case "merged-pages", "merged-values":
+		if f.merged == nil {
+			return nil, fmt.Errorf("not a merged file")
+		}
+		rg, err := f.merged(opts...)
+		if err != nil {
+			return nil, err
+		}
+		if int(rg.NumRows()) != f.n {
+			return nil, fmt.Errorf("merged row group has %d rows, inputs %d", rg.NumRows(), f.n)
+		}
+		v.total = f.n
+		// the merged row group orders its columns by its own (merged) schema: find the leaf by path
+		ci := -1
+		for i, path := range rg.Schema().Columns() {
+			if strings.Join(path, "\x00") == strings.Join(f.schema.Columns()[sp.Col], "\x00") {
+				ci = i
+			}
+		}
+		if ci < 0 {
+			return nil, fmt.Errorf("merged row group has no column %v", f.schema.Columns()[sp.Col])
+		}
+		if sp.Kind == "merged-pages" {
+			usePages(rg.ColumnChunks()[ci].Pages())
+		} else {
+			useValues(parquet.NewColumnChunkValueReader(rg.ColumnChunks()[ci]))
+		}
 	case "buffer-rows":
 		rg, err := f.buffer()
 		if err != nil {
@@ -974,18 +1010,19 @@ func c08LongListFile(opts ...parquet.WriterOption) (*c08File, error) {
 	return f, err
 }
 
-func c08LocalFileTags(n int, tagsLen func(i int) int, opts ...parquet.WriterOption) (*c08File, error) {
-	rows := make([]c08Row, n)
-	for i := range rows {
-		rows[i] = c08Row{ID: int64(i), S: fmt.Sprintf("s%03d", i%17)}
-		for j := 0; j < tagsLen(i); j++ {
-			rows[i].Tags = append(rows[i].Tags, int32(i*10+j))
-		}
-		if i%3 != 0 {
-			x := float64(i)
-			rows[i].Opt = &x
-		}
+func c08MakeRow(i int, ntags int) c08Row {
+	row := c08Row{ID: int64(i), S: fmt.Sprintf("s%03d", i%17)}
+	for j := 0; j < ntags; j++ {
+		row.Tags = append(row.Tags, int32(i*10+j))
 	}
+	if i%3 != 0 {
+		x := float64(i)
+		row.Opt = &x
+	}
+	return row
+}
+
+func c08WriteRows(rows []c08Row, opts ...parquet.WriterOption) ([]byte, error) {
 	var buf bytes.Buffer
 	w := parquet.NewGenericWriter[c08Row](&buf, opts...)
 	for i := range rows { // one row per call: the page buffer size is checked between calls
@@ -995,6 +1032,67 @@ func c08LocalFileTags(n int, tagsLen func(i int) int, opts ...parquet.WriterOpti
 	}
 	if err := w.Close(); err != nil {
 		return nil, err
+	}
+	return buf.Bytes(), nil
+}
+
+// c08MergedFile: A holds the ids 0..2999 and the even ids of 3000..4999, B the odd ids of
+// 3000..4999 and 5000..7999, both sorted by id; MergeRowGroups cuts the lone stretches off as row
+// range views. The rows of the file are A's then B's: the order in which the column chunks of the
+// merged row group hold them.
+func c08MergedFile() (*c08File, error) {
+	var rowsA, rowsB []c08Row
+	for i := 0; i < 8000; i++ {
+		inA := i < 3000 || (i < 5000 && i%2 == 0)
+		if inA {
+			rowsA = append(rowsA, c08MakeRow(i, i%4))
+		} else {
+			rowsB = append(rowsB, c08MakeRow(i, i%4))
+		}
+	}
+	sorted := parquet.SortingWriterConfig(parquet.SortingColumns(parquet.Ascending("id")))
+	dataA, err := c08WriteRows(rowsA, parquet.PageBufferSize(256), sorted)
+	if err != nil {
+		return nil, err
+	}
+	dataB, err := c08WriteRows(rowsB, parquet.PageBufferSize(256), sorted)
+	if err != nil {
+		return nil, err
+	}
+	all := append(append([]c08Row{}, rowsA...), rowsB...)
+	data, err := c08WriteRows(all, parquet.PageBufferSize(256))
+	if err != nil {
+		return nil, err
+	}
+	f := &c08File{name: "c08Row", desc: fmt.Sprintf("c08Row merged A(%d rows)+B(%d rows)", len(rowsA), len(rowsB)), schema: parquet.SchemaOf(c08Row{}),
+		rows: reflect.ValueOf(all), n: len(all), data: data}
+	f.merged = func(opts ...parquet.FileOption) (parquet.RowGroup, error) {
+		a, err := parquet.OpenFile(bytes.NewReader(dataA), int64(len(dataA)), opts...)
+		if err != nil {
+			return nil, err
+		}
+		b, err := parquet.OpenFile(bytes.NewReader(dataB), int64(len(dataB)), opts...)
+		if err != nil {
+			return nil, err
+		}
+		return parquet.MergeRowGroups([]parquet.RowGroup{a.RowGroups()[0], b.RowGroups()[0]},
+			parquet.SortingRowGroupConfig(parquet.SortingColumns(parquet.Ascending("id"))))
+	}
+	return f, c08Oracle(f)
+}
+
+func c08LocalFileTags(n int, tagsLen func(i int) int, opts ...parquet.WriterOption) (*c08File, error) {
+	rows := make([]c08Row, n)
+	for i := range rows {
+		rows[i] = c08MakeRow(i, tagsLen(i))
+	}
+	var buf bytes.Buffer
+	{
+		b, err := c08WriteRows(rows, opts...)
+		if err != nil {
+			return nil, err
+		}
+		buf.Write(b)
 	}
 	f := &c08File{name: "c08Row", desc: fmt.Sprintf("c08Row n=%d", n), schema: parquet.SchemaOf(c08Row{}), rows: reflect.ValueOf(rows), n: n, data: buf.Bytes()}
 	f.buffer = func() (parquet.RowGroup, error) {
@@ -2077,6 +2175,37 @@ func RunC08(ctx *core.Ctx) {
 			}
 			for i := 0; i < 6; i++ {
 				w.valueLoopCheck(lf, r, "long-list file")
+			}
+		}
+		// the public route to row range views: column chunks of a merged row group
+		if mf, err := c08MergedFile(); err != nil {
+			ctx.Fail("L1", "oracle-sequential-read-differs", "merged file: "+err.Error(), nil)
+		} else {
+			r := ctx.Rand("c08/merged")
+			borders := []int{3000, 4000, 5000, 8000}
+			for _, kind := range c08MergedKinds {
+				for col := 0; col < mf.ncol; col++ {
+					for h := 0; h < ctx.Scale(4, 12); h++ {
+						sp := c08Spec{Kind: kind, Col: col, SkipIndex: r.Intn(2) == 0, Async: r.Intn(3) == 0, ReadBuf: []int{0, 0, 16, 300, 4096}[r.Intn(5)]}
+						v, err := mf.open(sp)
+						if err != nil {
+							ctx.Fail("L1", kind+"-open-error", "opening the view failed: "+err.Error(), map[string]any{"file": mf.desc, "view": sp.String()})
+							continue
+						}
+						ops := c08RandOps(mf, sp, v, r)
+						func() {
+							defer func() { recover() }()
+							v.close()
+						}()
+						// aim some seeks at the borders of the segments
+						for i := range ops {
+							if ops[i].K == 's' && r.Intn(3) == 0 {
+								ops[i].A = int64(max(borders[r.Intn(len(borders))]+r.Intn(5)-2-r.Intn(2)*r.Intn(40), 0))
+							}
+						}
+						w.runCase(mf, sp, ops, "merged file")
+					}
+				}
 			}
 		}
 		w.flush()
